@@ -14,6 +14,7 @@ import (
 
 	"google.golang.org/grpc"
 	"google.golang.org/grpc/codes"
+	"google.golang.org/grpc/metadata"
 	"google.golang.org/grpc/status"
 	"pgregory.net/rapid"
 
@@ -56,6 +57,8 @@ type c16Case struct {
 	// HandlerBoth (with HandlerFail, unary): the handler returns a response value next to its error; every
 	// interceptor on the way out sees both
 	HandlerBoth bool
+	// MoreSends: streaming clients send this many further messages before they close and start receiving
+	MoreSends int `json:",omitempty"`
 }
 
 type c16Log struct {
@@ -142,6 +145,11 @@ func c16StreamInt(id string, beh string, lg *c16Log) grpc.StreamServerIntercepto
 		case "ctx-val":
 			ss = &c16CtxStream{ServerStream: ss, ctx: c16Mark(ss.Context(), id)}
 		case "sc-err":
+			return status.Error(codes.PermissionDenied, "denied by "+id)
+		case "sc-err-md":
+			// refuses the call like sc-err, and says why in headers and trailers
+			ss.SetHeader(metadata.Pairs("zz-denied-by", id))
+			ss.SetTrailer(metadata.Pairs("zz-denied-reason", "policy"))
 			return status.Error(codes.PermissionDenied, "denied by "+id)
 		case "sc-ok":
 			return nil
@@ -314,7 +322,7 @@ func (c *c16Case) model() (log []string, count, code int32, errCode codes.Code) 
 			s := c.Streams[c.Index]
 			log = append(log, fmt.Sprintf("s:%s:%s:%v:%v[%s]", e.id, full, s.CS, s.SS, ms))
 			switch e.beh {
-			case "sc-err":
+			case "sc-err", "sc-err-md":
 				return 0, 0, codes.PermissionDenied
 			case "sc-ok":
 				return 0, 0, codes.OK
@@ -597,6 +605,14 @@ func propC16(c c16Case) *Outcome {
 					return
 				}
 				cs.SendMsg(&pb.Message{Count: 5})
+				if s.CS {
+					// a client that sends everything it has before it looks at the outcome
+					for i := 0; i < c.MoreSends; i++ {
+						if cs.SendMsg(&pb.Message{Count: 5}) != nil {
+							break
+						}
+					}
+				}
 				cs.CloseSend()
 				for i := 0; i < 3; i++ {
 					if gotErr = cs.RecvMsg(new(pb.Message)); gotErr != nil {
@@ -673,7 +689,10 @@ func (f *c16FakeStream) RecvMsg(m interface{}) error {
 	}
 	return nil
 }
-func (f *c16FakeStream) SendMsg(m interface{}) error { return nil }
+func (f *c16FakeStream) SendMsg(m interface{}) error  { return nil }
+func (f *c16FakeStream) SetHeader(metadata.MD) error  { return nil }
+func (f *c16FakeStream) SendHeader(metadata.MD) error { return nil }
+func (f *c16FakeStream) SetTrailer(metadata.MD)       {}
 
 func c16DirectStream(d *grpc.ServiceDesc, idx int, srv interface{}, ts grpc.StreamServerInterceptor) error {
 	sd := d.Streams[idx]
@@ -686,7 +705,7 @@ func c16DirectStream(d *grpc.ServiceDesc, idx int, srv interface{}, ts grpc.Stre
 }
 
 var c16UBeh = []string{"", "pass", "pass", "map-err", "ctx-val", "sc-err", "sc-resp", "rw-req", "rw-resp", "rw-err"}
-var c16SBeh = []string{"", "pass", "pass", "map-err", "ctx-val", "sc-err", "sc-ok", "rw-err"}
+var c16SBeh = []string{"", "pass", "pass", "map-err", "ctx-val", "sc-err", "sc-err-md", "sc-ok", "rw-err"}
 
 func genC16(t *rapid.T) c16Case {
 	c := c16Case{Carrier: rapid.SampledFrom([]string{"direct", cInproc, cHTTP, cHTTPMux, cHTTPPer}).Draw(t, "carrier")}
@@ -700,6 +719,7 @@ func genC16(t *rapid.T) c16Case {
 	for i := 0; i < nl; i++ {
 		c.Layers = append(c.Layers, c16Layer{Via: rapid.SampledFrom([]string{"desc", "desc", "reg"}).Draw(t, "via"), Unary: rapid.SampledFrom(c16UBeh).Draw(t, "ubeh"), Stream: rapid.SampledFrom(c16SBeh).Draw(t, "sbeh")})
 	}
+	c.MoreSends = rapid.SampledFrom([]int{0, 0, 1, 2, 3}).Draw(t, "moresends")
 	c.TUnary = rapid.SampledFrom(c16UBeh).Draw(t, "tu")
 	c.TStream = rapid.SampledFrom(c16SBeh).Draw(t, "ts")
 	c.CallStream = rapid.Bool().Draw(t, "callstream")
@@ -728,9 +748,9 @@ func genC16(t *rapid.T) c16Case {
 
 func init() { registerReplay("C16", propC16) }
 
-const c16Rule = "rapid-generated: descriptor (1..4 unary + 1..4 stream methods, all flag combinations) x 0..3 decoration layers via InterceptServer / WithInterceptor, each with nil or non-nil unary and stream interceptors x transport-level interceptors nil or set x behaviour per interceptor (pass, short-circuit error, short-circuit response, rewrite request, rewrite response, rewrite error) x handler ok/fail, dispatched directly on the decorated descriptor, through the in-process channel, httpgrpc.Server and HandleServices; " +
+const c16Rule = "rapid-generated: descriptor (1..4 unary + 1..4 stream methods, all flag combinations) x 0..3 decoration layers via InterceptServer / WithInterceptor, each with nil or non-nil unary and stream interceptors x transport-level interceptors nil or set x behaviour per interceptor (pass, short-circuit error - also after setting headers and trailers -, short-circuit response, rewrite request, rewrite response, rewrite error) x handler ok/fail, dispatched directly on the decorated descriptor, through the in-process channel, httpgrpc.Server and HandleServices; " +
 	"oracle = model interpreter: ordered event log (transport interceptor, decorations outermost first, handler iff everybody calls onward; full method names and stream flags as logged by the interceptors) and final response/status must be equal; snapshot of the original ServiceDesc unchanged; no interceptors => same pointer; " +
-	"also generated since the seeded rounds: the same decorated description on a second carrier, non-root base paths, interceptors deriving a context (markers must be visible downstream), clients opening streams with a bidi descriptor whatever the method's flags, slashless method names on the in-process channel, channel interceptors configured after registration, up to 7 decoration layers, a sibling WithInterceptor view of the same parent registry, the per-method HTTP server form; " +
+	"also generated since the seeded rounds: the same decorated description on a second carrier, non-root base paths, interceptors deriving a context (markers must be visible downstream), clients opening streams with a bidi descriptor whatever the method's flags, slashless method names on the in-process channel, channel interceptors configured after registration, up to 7 decoration layers, a sibling WithInterceptor view of the same parent registry, the per-method HTTP server form, streaming clients that send 1..4 messages before they look at the outcome; " +
 	"non-trivial = >=2 interceptors in the chain or a short-circuit; distinct by case hash"
 
 func TestC16(t *testing.T) {
